@@ -171,7 +171,7 @@ def showTags (t : List (String × String)) : String :=
 
 def showRec (r : Rec) : String :=
   ":".intercalate [r.trace, r.sid, optS r.pid, optS r.svc, optS r.name, toString r.start, toString r.end_,
-    (match r.durBad with | some txt => txt | none => toString r.dur),
+    (match r.durBad with | some txt => txt | none => if r.durAsText then durText r else toString r.dur),
     optS r.status, showTags r.tags]
 
 def showAck (a : Nat × Int) : String := s!"{a.1}/{a.2}"
